@@ -43,6 +43,13 @@ def check_rh_object(inp):
     base = scorecheck.as_floats(scorecheck.expected_scores(ver, s))[0]
     C = obs.classes()[ver]
     o = C(s)
+    pre = inp.get("pre") or []
+    if pre:
+        # "for every object": also one whose other public accessors were called first
+        from . import c18
+        A = c18.accessors(ver)
+        for name in pre:
+            A[name](o)
     rh = o.rh_vector()
     fails = []
     want_prefix = "%.1f/" % base
@@ -119,7 +126,9 @@ def hyp_part(n_examples, shard):
                                      "bad-vector", "both-bad", "other-score-slot")))
         v = draw(gen.valid(ver))
         if kind == "object":
-            return ver, kind, v
+            from . import c18
+            names = sorted(c18.accessors(ver))
+            return ver, kind, (v, draw(st.lists(st.sampled_from(names), max_size=3)))
         if kind == "score-sweep":
             k = draw(st.integers(0, 100))
             return ver, kind, draw(st.sampled_from(SPELLINGS)) % (k / 10.0) + "/" + v
@@ -169,8 +178,9 @@ def hyp_part(n_examples, shard):
     def t(c):
         ver, kind, text = c
         if kind == "object":
-            part.count({"ver": ver, "s": text}, nontrivial=False, classes=("object", "v" + ver))
-            part.check("rh_object", check_rh_object, {"ver": ver, "s": text}, hyp=True)
+            text, pre = text
+            part.count({"ver": ver, "s": text, "pre": pre}, nontrivial=False, classes=("object", "v" + ver, "object-after-other-calls" if pre else "fresh-object"))
+            part.check("rh_object", check_rh_object, {"ver": ver, "s": text, "pre": pre}, hyp=True)
             # and the exact round trip through the sweep check
             return
         k, _ = obs.construct(ver, text, rh=True)
@@ -220,6 +230,6 @@ def run(tier, t0):
                          ["'parses as a number' = Python float() succeeds; a score text that float() reads as another double than the oracle base score must be refused",
                           "a score text that denotes a number other than the base score but rounds to the same double is expected to be refused (literal reading; listed known finding rh.score-rounded-to-double)",
                           "when both the score part and the vector part are faulty either error class is accepted", "coverage-guided: " + fuzz_note],
-                         required=("object", "score-sweep", "near-score", "padded-score", "special-score", "no-slash", "bad-score", "bad-vector", "both-bad",
+                         required=("object", "object-after-other-calls", "score-sweep", "near-score", "padded-score", "special-score", "no-slash", "bad-score", "bad-vector", "both-bad",
                                    "other-score-slot", "sweep-101", "score-below-double-resolution", "outcome:ok", "outcome:rh-mismatch", "outcome:rh-malformed",
                                    "outcome:malformed", "outcome:mandatory"))
